@@ -18,11 +18,11 @@ pub fn c05_meta(tier: Tier) -> Meta {
     let (ops, st, sc, nmax, cases) = c05_params(tier);
     Meta {
         rule: format!(
-            "Work clause: FftPlanner over an operation-counting element type (f64 payload, thread-local counters; both SIMD planners must decline it) for every n in 2..={ops} x both directions x process/in-place/out-of-place/immutable, one chunk: additions+subtractions+multiplications <= 64*n*log2(n), and the counts on three inputs (zeros, random, huge/tiny mix) must be IDENTICAL (input independence); plus {cases} proptest-drawn structured lengths up to {nmax}; plus safe primes q = 2r+1 (r prime) and their multiples by 2, 3, 4, 6 up to 2^17 (quick, ~120 of them) / 2^19 (thorough, all), and the same work clause with a 256-byte counting element (size_of::<Complex<T>>() = 512) on every n <= 1024/4096 and on the safe primes up to 2^15/2^17. \
+            "Work clause: FftPlanner over an operation-counting element type (f64 payload, thread-local counters; both SIMD planners must decline it) for every n in 2..={ops} x both directions x process/in-place/out-of-place/immutable, one chunk: additions+subtractions+multiplications <= 64*n*log2(n), and the counts on three inputs (zeros, random, huge/tiny mix) must be IDENTICAL (input independence); plus {cases} proptest-drawn structured lengths up to {nmax}; plus safe primes q = 2r+1 (r prime) and their multiples by 2, 3, 4, 6 up to 2^18 (quick: ~120 of them plus every Cunningham chain of length >= 3) / 2^19 (thorough: all), and the same work clause with a 256-byte counting element (size_of::<Complex<T>>() = 512) on every n <= 1024/4096 and on the safe primes up to 2^15/2^16 (chains of length >= 3 up to 2^16/2^17). \
              Structural clause: the plan text (plan-report hook) of Auto/Scalar/Sse/Avx x f32/f64 for every n in 2..={st}, parsed independently: no naive `Dft(k)` node with k > 32. \
              Scratch clause: all three advertised scratch lengths <= 12n+64 for every n in 0..={sc} x 4 planners x f32/f64 x 2 directions (transform constructed) and the structured large lengths. \
              The structural clause is additionally decided on what is BUILT: a cfg-guarded construction hook records every naive `Dft` the library constructs, and building the plan of every n in the scratch-clause range (and every history below) must not construct one longer than 32, whatever the plan text says. \
-             The work clause is also checked on planners WITH history: one operation-counting planner is fed every n in 2..=3072 (quick) / 8192 (thorough) ascending, descending, the prime neighbourhoods ((q-1)/2, q-1, q, 2q, 2q+1), and 16/48 seed-driven shuffled subsequences with mixed directions; every returned transform is run and counted against 64*n*log2(n). \
+             The work clause is also checked on planners WITH history: one operation-counting planner is fed every n in 2..=2560 (quick) / 8192 (thorough) ascending, descending, the prime neighbourhoods ((q-1)/2, q-1, q, 2q, 2q+1), and 12/48 seed-driven shuffled subsequences with mixed directions; every returned transform is run and counted against 64*n*log2(n). \
              The scratch clause is also checked on planners WITH history: for every prime p up to 1024 (quick) / 8192 (thorough) and every 2^a*3^b length M in [2p,16p], the history [M, p, M', p'] (' = other direction) on the Scalar/Sse/Avx planners. \
              Non-trivial: n >= 2; distinct = (kind, planner/type, n or window or history, entry).",
         ),
@@ -57,7 +57,7 @@ pub fn c05_worker(ctx: &mut Ctx) {
     // Cunningham chains) and their small multiples, up to 2^16 (quick) / 2^18 (thorough) with the 8-byte element and up to
     // 2^15 / 2^17 with the 256-byte element (a planner that budgets by size_of::<Complex<T>>() decides differently there)
     {
-        let top = ctx.tier.pick(1usize << 16, 1 << 18);
+        let top = ctx.tier.pick(1usize << 17, 1 << 18);
         let mut safe: Vec<usize> = vec![];
         let mut q = 23usize;
         while q <= top {
@@ -80,7 +80,7 @@ pub fn c05_worker(ctx: &mut Ctx) {
                     continue;
                 }
                 ctx.exec(&Case::new("C05", "ops", Planner::Auto, Ty::F64, DIRS[(i + mi) % 2], n).with_entry(ENTRIES[(i + mi) % 4]).with_input(InputSpec::fam("uniform", n as u64)).with_p(vec![0]));
-                if (n <= top / 2 || chain3 && n <= top) && (mi == 0 || mi == 1) {
+                if (n <= top / 4 || chain3 && n <= top / 2) && (mi == 0 || mi == 1) {
                     ctx.exec(&Case::new("C05", "ops", Planner::Scalar, Ty::F64, DIRS[(i + mi + 1) % 2], n).with_entry(ENTRIES[(i + mi + 1) % 4]).with_input(InputSpec::fam("uniform", n as u64)).with_p(vec![1]));
                 }
             }
@@ -150,7 +150,7 @@ pub fn c05_worker(ctx: &mut Ctx) {
     // work clause on planners WITH history: long request sequences on one operation-counting planner (ascending, descending,
     // prime neighbourhoods q-1, q, 2q, 2q+1, and seed-driven shuffles), every returned transform measured
     {
-        let hi = ctx.tier.pick(3072i64, 8192);
+        let hi = ctx.tier.pick(2560i64, 8192);
         for planner in [Planner::Auto, Planner::Scalar] {
             for dir in DIRS {
                 for mode in 0..3i64 {
@@ -161,7 +161,7 @@ pub fn c05_worker(ctx: &mut Ctx) {
                 }
             }
         }
-        for s in 0..ctx.tier.pick(16u64, 48) {
+        for s in 0..ctx.tier.pick(12u64, 48) {
             if ctx.mine() {
                 let top = [hi, hi / 4, 2 * hi][(s % 3) as usize];
                 ctx.exec(
